@@ -319,7 +319,7 @@ Proof.
     eapply reach_step.
     { unfold step; cbn. destruct ct as [ty v0]; destruct ty; cbn in Wc; try discriminate. reflexivity. }
     rewrite <- app_assoc. cbn [app].
-    eapply reach_trans. { apply (IHa Wa (ITok (tk TLParen) :: ITok ct :: IExp (parse_literal o f) :: r) TLParen ""%string (_ :: _ :: n) TRParen ""%string); cbn; auto;
+    eapply reach_trans. { apply (IHa Wa (ITok (tk TLParen) :: ITok ct :: IExp (parse_literal o f) :: r) TLParen "("%string (_ :: _ :: n) TRParen ")"%string); cbn; auto;
       try (apply fits_spec; split; auto; left; cbn; pose proof (lvl_pos a); lia);
       try (apply closes_spec; split; auto; cbn; lia). }
     eapply reach_step. { unfold step; cbn. reflexivity. }
@@ -336,9 +336,9 @@ Proof.
     assert (Hc2 : clvl c < 2) by (destruct Hc as [?|[Hp ?]]; [lia | destruct c; cbn in *; try discriminate; lia]).
     assert (Fb2 : 2 < lvl b) by (destruct Fb as [?|[? ?]]; [lia | discriminate]).
     cbn [pr want]. rewrite <- app_assoc. cbn [app].
-    eapply reach_trans. { apply (IHa Wa r c cv n TAnd ""%string); auto; [apply fits_spec; split; auto; left; lia | apply closes_spec; split; auto]. }
+    eapply reach_trans. { apply (IHa Wa r c cv n TAnd "AND"%string); auto; [apply fits_spec; split; auto; left; lia | apply closes_spec; split; auto]. }
     eapply reach_step. { unfold step; cbn. destruct c; cbn in Hctx, Hc2; try discriminate; try lia; reflexivity. }
-    eapply reach_trans. { apply (IHb Wb (ITok (tk TAnd) :: IExp (want a) :: r) TAnd ""%string); cbn; auto;
+    eapply reach_trans. { apply (IHb Wb (ITok (tk TAnd) :: IExp (want a) :: r) TAnd "AND"%string); cbn; auto;
       [apply fits_spec; split; auto | apply closes_spec; split; auto; lia]. }
     eapply reach_step; [|apply reach_refl].
     unfold step; destruct nx; cbn in Hcl, Hnx; try discriminate; try lia; cbn;
@@ -348,9 +348,9 @@ Proof.
     assert (Hc2 : clvl c < 1) by (destruct Hc as [?|[Hp ?]]; [lia | destruct c; cbn in *; try discriminate; lia]).
     assert (Fb2 : 1 < lvl b) by (destruct Fb as [?|[? ?]]; [lia | discriminate]).
     cbn [pr want]. rewrite <- app_assoc. cbn [app].
-    eapply reach_trans. { apply (IHa Wa r c cv n TOr ""%string); auto; [apply fits_spec; split; auto; left; lia | apply closes_spec; split; auto]. }
+    eapply reach_trans. { apply (IHa Wa r c cv n TOr "OR"%string); auto; [apply fits_spec; split; auto; left; lia | apply closes_spec; split; auto]. }
     eapply reach_step. { unfold step; cbn. destruct c; cbn in Hctx, Hc2; try discriminate; try lia; reflexivity. }
-    eapply reach_trans. { apply (IHb Wb (ITok (tk TOr) :: IExp (want a) :: r) TOr ""%string); cbn; auto;
+    eapply reach_trans. { apply (IHb Wb (ITok (tk TOr) :: IExp (want a) :: r) TOr "OR"%string); cbn; auto;
       [apply fits_spec; split; auto | apply closes_spec; split; auto; lia]. }
     eapply reach_step; [|apply reach_refl].
     unfold step; destruct nx; cbn in Hcl, Hnx; try discriminate; try lia; cbn;
@@ -360,7 +360,7 @@ Proof.
     assert (La : 3 <= lvl a) by (destruct Fa' as [?|[? ?]]; lia).
     cbn [pr want app].
     eapply reach_step. { unfold step; cbn. destruct c; cbn in Hctx, Hc; try discriminate; try reflexivity; destruct Hc as [?|[? ?]]; try lia; try discriminate. }
-    eapply reach_trans. { apply (IHa Wa (ITok (tk TNot) :: r) TNot ""%string); cbn; auto. apply closes_spec; split; auto; lia. }
+    eapply reach_trans. { apply (IHa Wa (ITok (tk TNot) :: r) TNot "NOT"%string); cbn; auto. apply closes_spec; split; auto; lia. }
     eapply reach_step; [|apply reach_refl].
     unfold step; destruct nx; cbn in Hcl, Hnx; try discriminate; try lia; cbn;
       unfold do_reduce; cbn [rs ns toks pend mk]; rewrite (reduce_prefix TNot Not) by auto; reflexivity.
@@ -369,7 +369,7 @@ Proof.
     assert (La : 7 <= lvl a) by (destruct Fa' as [?|[? ?]]; lia).
     cbn [pr want app].
     eapply reach_step. { unfold step; cbn. destruct c; cbn in Hctx, Hc; try discriminate; try reflexivity; destruct Hc as [?|[? ?]]; try lia; try discriminate. }
-    eapply reach_trans. { apply (IHa Wa (ITok (tk TPlus) :: r) TPlus ""%string); cbn; auto. apply closes_spec; split; auto; lia. }
+    eapply reach_trans. { apply (IHa Wa (ITok (tk TPlus) :: r) TPlus "+"%string); cbn; auto. apply closes_spec; split; auto; lia. }
     eapply reach_step; [|apply reach_refl].
     unfold step; destruct nx; cbn in Hcl, Hnx; try discriminate; try lia; cbn;
       unfold do_reduce; cbn [rs ns toks pend mk]; rewrite (reduce_prefix TPlus Must) by auto; reflexivity.
@@ -378,7 +378,7 @@ Proof.
     assert (La : 6 <= lvl a) by (destruct Fa' as [?|[? ?]]; lia).
     cbn [pr want app].
     eapply reach_step. { unfold step; cbn. destruct c; cbn in Hctx, Hc; try discriminate; try reflexivity; destruct Hc as [?|[? ?]]; try lia; try discriminate. }
-    eapply reach_trans. { apply (IHa Wa (ITok (tk TMinus) :: r) TMinus ""%string); cbn; auto. apply closes_spec; split; auto; lia. }
+    eapply reach_trans. { apply (IHa Wa (ITok (tk TMinus) :: r) TMinus "-"%string); cbn; auto. apply closes_spec; split; auto; lia. }
     eapply reach_step; [|apply reach_refl].
     unfold step; destruct nx; cbn in Hcl, Hnx; try discriminate; try lia; cbn;
       unfold do_reduce; cbn [rs ns toks pend mk]; rewrite (reduce_prefix TMinus MustNot) by auto; reflexivity.
@@ -386,7 +386,7 @@ Proof.
     cbn [wfq] in W. destruct W as (Wa & La & Wn). cbn [lvl clvl is_prefix_op] in *.
     assert (Hc2 : clvl c < 4) by (destruct Hc as [?|[Hp ?]]; [lia | destruct c; cbn in *; try discriminate; lia]).
     cbn [pr]. rewrite <- app_assoc. cbn [app].
-    eapply reach_trans. { apply (IHa Wa r c cv n TCarrot ""%string); auto; [apply fits_spec; split; auto; left; lia | apply closes_spec; split; auto]. }
+    eapply reach_trans. { apply (IHa Wa r c cv n TCarrot "^"%string); auto; [apply fits_spec; split; auto; left; lia | apply closes_spec; split; auto]. }
     eapply reach_step. { unfold step; cbn. destruct c; cbn in Hctx, Hc2; try discriminate; try lia; reflexivity. }
     destruct num as [tok|].
     + destruct Wn as (Tt & f & Hf). cbn [app want]. rewrite Hf.
@@ -402,7 +402,7 @@ Proof.
     cbn [wfq] in W. destruct W as (Wa & La & Wn). cbn [lvl clvl is_prefix_op] in *.
     assert (Hc2 : clvl c < 5) by (destruct Hc as [?|[Hp ?]]; [lia | destruct c; cbn in *; try discriminate; lia]).
     cbn [pr]. rewrite <- app_assoc. cbn [app].
-    eapply reach_trans. { apply (IHa Wa r c cv n TTilde ""%string); auto; [apply fits_spec; split; auto; left; lia | apply closes_spec; split; auto]. }
+    eapply reach_trans. { apply (IHa Wa r c cv n TTilde "~"%string); auto; [apply fits_spec; split; auto; left; lia | apply closes_spec; split; auto]. }
     eapply reach_step. { unfold step; cbn. destruct c; cbn in Hctx, Hc2; try discriminate; try lia; reflexivity. }
     destruct num as [tok|].
     + destruct Wn as (Tt & d & Hd & Ho). cbn [app want]. rewrite Hd.
@@ -417,7 +417,7 @@ Proof.
   - (* parens *)
     cbn [wfq] in W. cbn [pr app want]. rewrite <- app_assoc. cbn [app].
     eapply reach_step. { unfold step; cbn. destruct c; cbn in Hctx; try discriminate; reflexivity. }
-    eapply reach_trans. { apply (IHa W (ITok (tk TLParen) :: r) TLParen ""%string (_ :: n) TRParen ""%string); cbn; auto;
+    eapply reach_trans. { apply (IHa W (ITok (tk TLParen) :: r) TLParen "("%string (_ :: n) TRParen ")"%string); cbn; auto;
       try (apply fits_spec; split; auto; left; cbn; pose proof (lvl_pos a); lia);
       try (apply closes_spec; split; auto; cbn; lia). }
     eapply reach_step. { unfold step; cbn. reflexivity. }
